@@ -93,8 +93,15 @@ func (op ValueOp) Run(args [][]byte) ([][]byte, error) {
 		return nil, fmt.Errorf("leaf hash mismatch: want %X got %X", op.Proof.LeafHash, kvhash)
 	}
 
+	rootHash := op.Proof.ComputeRootHash()
+	if rootHash == nil {
+		// nil would equal an empty expected root in ProofOperators.Verify
+		return nil, fmt.Errorf("invalid proof: no root hash can be computed from index %d, total %d and %d aunts",
+			op.Proof.Index, op.Proof.Total, len(op.Proof.Aunts))
+	}
+
 	return [][]byte{
-		op.Proof.ComputeRootHash(),
+		rootHash,
 	}, nil
 }
 
